@@ -21,15 +21,18 @@ RULE = (
     "end of file; (iv) for every construct: every line prefix, every prefix ending inside the last line, and tab / "
     "form-feed / CR variants (invalid inputs); (v) degenerate calls: 31 builtin / library functions the rules pattern-match on x 19 missing, empty or "
     "ill-shaped argument lists in 4 positions; (vi) scaling family of the self-recursive rules, n in {1,5,50} "
-    "(thorough: 400, 1100). entry points: format_code under default and safe (thorough: + keep_imports, preserve), "
-    "and every rule on inputs that parse. oracle: no exception of any kind escapes, result is a str, < 60 s, and an "
+    "(thorough: 400; 120 for the super-linear context-manager family). entry points: format_code under default and safe (thorough: + keep_imports, preserve), "
+    "and every rule on inputs that parse. oracle: no exception of any kind escapes, result is a str, < 300 CPU seconds per call, and an "
     "input that is invalid even after dedent comes back equal up to whitespace. non-trivial = the call got past the "
     "validity gate (valid input) or exercised the hand-back path (invalid input)"
 )
 ASSUMPTIONS = [
-    "time limit is 60 s wall per call inside a worker (typical 0.05-0.5 s); slower-but-finishing is not reported",
+    "time limit is 300 s CPU per call inside a worker (typical 0.05-0.5 s); slower-but-finishing is not reported",
     "rules are only called on inputs that parse (they are documented as source -> source on Python code)",
 ]
+
+
+CPU_LIMIT = 300  # CPU seconds per call (typical 0.05-0.5 s; the slowest admitted scaling case needs ~25 s)
 
 
 def worker_init():
@@ -109,7 +112,8 @@ def units(tier):
     for f in DEGENERATE_FUNCS:
         yield {"t": "degenerate", "func": f}
     for fam in SCALE:
-        for n in (1, 5, 50) if tier == "quick" else (1, 5, 50, 400, 1100):
+        sizes = (1, 5, 50) if tier == "quick" else ((1, 5, 50, 120) if fam == "context_manager" else (1, 5, 50, 400))
+        for n in sizes:  # missing_context_manager is super-linear (680 CPU s at n=400): slow, not non-terminating
             yield {"t": "scale", "family": fam, "n": n}
 
 
@@ -118,13 +122,13 @@ def _call(entry, src, cfg):
     boot.clear_caches()
     t0 = time.time()
     try:
-        with time_limit(60):
+        with time_limit(CPU_LIMIT, cpu=True):
             if entry == "format_code":
                 out = progs.format_code(src, cfg)
             else:
                 out = progs.call_rule(entry, src)
     except CaseTimeout:
-        return "timeout", None, 60.0
+        return "timeout", None, float(CPU_LIMIT)
     except BaseException as e:  # noqa: BLE001
         tb = traceback.extract_tb(e.__traceback__)
         inner = [fr for fr in tb if "/pyrefact/" in fr.filename]
@@ -165,7 +169,7 @@ def check_input(src, label, tier, with_rules=True, cfgs=None, only=None):
             res["viol"].append(violation(site, "raises:" + etype, "%s on %s raised %s at %s: %s" % (ep, label, etype, where, msg), desc, key=k))
             continue
         if status == "timeout":
-            res["viol"].append(violation(entry, "timeout", "%s on %s did not return within 60 s" % (ep, label), desc, key=k))
+            res["viol"].append(violation(entry, "timeout", "%s on %s did not return within 300 CPU seconds" % (ep, label), desc, key=k))
             continue
         if not isinstance(val, str):
             res["viol"].append(violation(entry, "not_a_string", "%s on %s returned %s" % (ep, label, type(val).__name__), desc, key=k))
